@@ -128,6 +128,20 @@ def run(ctx):
         if bad:
             ctx.spec_failures.append(("C10:state-dict-leaf-types", dict(cfg, keys=bad[:5])))
         canon = sd_canon(sd)
+        # ---- whole-model layout: the keys of the quantized modules, in order, are the per-module dicts under
+        # their dotted prefixes (`modelSave`), from which the model reads every module back (C10_model_roundtrip)
+        from optimum.quanto.nn import QModuleMixin as _QM
+        specs, prefixes = [], []
+        for name, mod in model.named_modules():
+            if isinstance(mod, _QM):
+                w = mod.weight
+                k = "float" if (mod.weight_qtype is None or not mod.frozen) else ("qbits" if isinstance(w, QBitsTensor) else "qbytes")
+                specs.append(f"{name}.,{k},{1 if mod.bias is not None else 0}")
+                prefixes.append(name + ".")
+        if specs:
+            lines.append("model10 " + ";".join(specs))
+            expect.append([" ".join(k for k in sd.keys() if any(k.startswith(p) for p in prefixes)) + " all-roundtrip-ok"])
+            ctx.count(f"model-layout:modules={len(specs)}")
         try:
             sd2 = roundtrip_serializer(sd, how)
         except Exception as e:  # noqa
